@@ -4,7 +4,9 @@ the Runner model on the projection proj_C03; the property oracle (harness/oracle
 import runner_common as rc
 
 LEVEL = "proof"
-OPTS = {}
+# every way of reaching the retry loop without a breaker (the projection does not contain classifier calls, which the sugar
+# entry points make once more for the absent breaker)
+OPTS = {"entries": ["retry", "retry", "retry", "retry.ctx", "retrypolicy", "retrypolicy.ctx", "decorator"]}
 
 
 def run(chk):
